@@ -11,8 +11,8 @@ from sim import Config, var, W, R, P, A, N, D, RW
 PROP = "C09"
 LEVEL = "exploration"
 RULE = ("operation sequences over {NMT command cs in {1,2,128,129,130,0,3,127,255} x target in {own, 0, other}, CONmtSetMode x4, CONmtReset x2, "
-        "CONodeStart, CONodeStop}: complete enumeration to the depth bound plus random longer sequences; after EVERY operation nine probes fire "
-        "(SDO read, RPDO, SYNC incl. a synchronous RPDO received before the operation, heartbeat of a monitored node, LSS inquiry, foreign identifier, EMCY set/clear, TPDO trigger, heartbeat "
+        "CONodeStart, CONodeStop}: complete enumeration to the depth bound plus random longer sequences; after EVERY operation the probes fire "
+        "(SDO read, the eight frames of an SDO block download + block upload incl. the unanswered ones, RPDO, SYNC incl. a synchronous RPDO received before the operation, heartbeat of a monitored node, LSS inquiry, foreign identifier, EMCY set/clear, TPDO trigger, heartbeat "
         "producer ticks) and frames, callbacks, CONmtGetMode and object effects are compared with the reference FSM and gating table; "
         "non-trivial = sequence with >= 1 mode change; distinct by operation sequence")
 ASSUMPTIONS = ["delivery of unclaimed frames in STOPPED and INITIALISING is not constrained (DESIGN.md A.3)",
@@ -33,6 +33,7 @@ def make_cfg(nid):
     cfg.add(var(0x2000, 0, RW | P, 1, 0x11))
     cfg.add(var(0x2001, 0, RW | P, 1, 0x77))
     cfg.add(var(0x2002, 0, RW | P, 1, 0x22))
+    cfg.add(S.domain(0x2020, 0, 14, bytes(range(0x31, 0x3F))))
     gen.add_rpdo(cfg, 0, 0x200, 254, [gen.maplink(0x2000, 0, 8)])
     gen.add_rpdo(cfg, 1, 0x300, 1, [gen.maplink(0x2002, 0, 8)])
     gen.add_tpdo(cfg, 0, 0x40000180, 254, 0, 0, [gen.maplink(0x2001, 0, 8)])
@@ -189,6 +190,29 @@ def probes(m, sim, chk, res):
     evs = sim.rx(0x600 + nid, bytes([0x40, 0x00, 0x10, 0x00, 0, 0, 0, 0]))
     if not chk.step(evs, [(0x580 + nid, bytes([0x43, 0x00, 0x10, 0x00, 0x91, 0x01, 0, 0]))] if live else [], (0, 0) if live else open_unclaimed, None, "sdo"):
         return False
+    # P1b multi-frame SDO transfers: every frame of a block download / block upload - also those the server does not answer -
+    # is claimed by the SDO server and never handed to the application; outside PRE-OPERATIONAL/OPERATIONAL none is answered
+    R, T = 0x600 + nid, 0x580 + nid
+    dom = bytes(((m.nprobe * 13 + i) & 0xFF) or 1 for i in range(14)) if live else None
+    mux = bytes([0x20, 0x20, 0x00])
+    cur = m.dom if hasattr(m, "dom") else bytes(range(0x31, 0x3F))
+    dialogue = [
+        (bytes([0xC2]) + mux + (14).to_bytes(4, "little"), [bytes([0xA0]) + mux + bytes([0x7F, 0, 0, 0])]),
+        (bytes([0x01]) + (dom or cur)[:7], []),
+        (bytes([0x82]) + (dom or cur)[7:], [bytes([0xA2, 0x02, 0x7F, 0, 0, 0, 0, 0])]),
+        (bytes([0xC1]) + bytes(7), [bytes([0xA1]) + bytes(7)]),
+        (bytes([0xA0]) + mux + bytes([4, 0, 0, 0]), [bytes([0xC2]) + mux + (14).to_bytes(4, "little")]),
+        (bytes([0xA3]) + bytes(7), [bytes([0x01]) + (dom or cur)[:7], bytes([0x82]) + (dom or cur)[7:]]),
+        (bytes([0xA2, 0x02, 0x04]) + bytes(5), [bytes([0xC1]) + bytes(7)]),
+        (bytes([0xA1]) + bytes(7), []),
+    ]
+    for k, (rq, rsp) in enumerate(dialogue):
+        chk.what = "probe SDO block transfer frame %d (%s) in mode %d" % (k, rq[:1].hex(), mode)
+        evs = sim.rx(R, rq)
+        if not chk.step(evs, [(T, x) for x in rsp] if live else [], (0, 0) if live else open_unclaimed, None, "sdo-block"):
+            return False
+    if live:
+        m.dom = dom
     # P2 RPDO
     v = (m.nprobe * 7 + 3) & 0xFF
     chk.what = "probe RPDO in mode %d" % mode
@@ -271,7 +295,7 @@ def probes(m, sim, chk, res):
         chk.fail("hbprod/frames", "heartbeats %r, reference %r (producer started at tick %d)" % (
             [(t, "%x" % c, d.hex()) for t, c, d in got], [(t, "%x" % c, d.hex()) for t, c, d in exp], m.hb_base))
         return False
-    res.counters["probes"] += 9
+    res.counters["probes"] += 17
     return True
 
 
